@@ -622,7 +622,7 @@ func snapshot(pk mq.Packet) string {
 		l = []string{ns(p.PacketID()), ls(fs), propsS(p.UserProperties)}
 	case *mq.PingReq, *mq.PingResp:
 	case *mq.Disconnect:
-		l = []string{ns(p.ReasonCode()), propsS(p.UserProperties)}
+		l = []string{ns(p.ReasonCode()), ns(p.SessionExpiryInterval()), ss(p.ReasonString()), ss(p.ServerReference()), propsS(p.UserProperties)}
 	case *mq.Auth:
 		l = []string{ns(p.ReasonCode()), ss(p.ReasonString()), ss(p.AuthMethod()), sb(p.AuthData()), propsS(p.UserProperties)}
 	case *mq.Undefined:
